@@ -11,6 +11,8 @@ use crate::preflate_error::{ExitCode, PreflateError};
 
 /// `PreflateError::add_context` calls `Location::caller()`, unsupported by Kani.
 pub fn stub_add_context(_e: &mut PreflateError) {}
+/// the same for the frozen reference crate (C04 harnesses that reach an error path of the reference build)
+pub fn stub_ref_add_context(_e: &mut preflate_ref::preflate_error::PreflateError) {}
 
 /// `alloc::fmt::format` — message text is irrelevant to every property.
 pub fn stub_format(_args: core::fmt::Arguments<'_>) -> String {
